@@ -111,6 +111,23 @@ class Exec:
                             sched.count("heartbeats")
                             lp._renew_once()
 
+            def thief_actor() -> None:
+                # takes the lock over (once its lease has lapsed) and just keeps it: the committer has then lost
+                # its lock while nobody else moves the pointer - only the fence can stop it
+                t = ds.load_table(inst.table_path)
+                lp = t.metadata_manager.lock_provider
+                try:
+                    lp.acquire()
+                except Exception:
+                    return
+                sched.count("thief_acquired")
+                # ownership bookkeeping uses the actor name of the writer; nothing else to do while holding
+                sched.gate("thief:holding", pred=lambda: all(a.state == "done" for a in sched.actors
+                                                             if a.name in st))
+                lp.release()
+
+            if case.get("thief"):
+                sched.spawn("thief", thief_actor, daemonic=True)
             if case.get("clock_steps", 1):
                 sched.spawn("clock", clock_actor, daemonic=True)
             if case.get("hb_steps", 0):
@@ -130,6 +147,12 @@ class Exec:
 
             def after(req: Any) -> None:
                 me = sched.me()
+                if me is not None and me.name == "thief" and req.key == lock_key and req.op == "PUT" and req.effect == "written":
+                    prev = lockstate["owner"]
+                    if prev is not None and prev != "thief":
+                        lockstate["lost_at"][prev] = sched.nstep
+                    lockstate["owner"] = "thief"
+                    return
                 if me is None or me.name not in st:
                     return
                 s = st[me.name]
@@ -207,7 +230,8 @@ class C08(Check):
         "S3 double: strongly consistent, conditional PUT (If-Match / If-None-Match), LastModified on the virtual clock",
         "lease expiry happens only through the explicit clock actor (never by wall time)",
     ]
-    require = {"executions_ok": 200, "pointer_cas_success": 200, "contended_executions": 30, "lease_expiries": 50}
+    require = {"executions_ok": 200, "pointer_cas_success": 200, "contended_executions": 30, "lease_expiries": 50,
+               "thief_acquired": 20, "fence_saw_other_owner": 10}
     worker_timeout_s = {"quick": 1500, "thorough": 7200}
 
     def gen_cases(self, tier: str, seed: int):
@@ -223,9 +247,16 @@ class C08(Check):
             nsh = (8 if c["hb_steps"] else 2) if k_main == 1 else 16
             for sh in range(nsh):
                 yield dict(c, mode="dfs", k=k_main, shard=sh, nshards=nsh)
+        # one committer + a thief that takes the lock over and keeps it + the clock: all <=1-preemption schedules
+        for ops in (["append"], ["delsnap"], ["delete"]):
+            for sh in range(4):
+                yield {"mode": "dfs", "ops": ops, "lock": "real", "clock_steps": 1, "hb_steps": 0, "thief": True,
+                       "k": 1 if tier == "quick" else 2, "shard": sh, "nshards": 4}
         key = [{"ops": ["append", "append"], "lock": "real", "clock_steps": 1, "hb_steps": 0},
                {"ops": ["append", "append"], "lock": "grant_all", "clock_steps": 0, "hb_steps": 0}]
         for ci, c in enumerate(key):
+            if tier == "quick" and ci == 0:
+                continue        # the 3-actor real-lock cell at k=2 is thorough-only (the thief cells cover lock loss at k=1)
             kk = 2 if tier == "quick" else 3
             nsh = 16 if tier == "quick" else 64
             for sh in range(nsh):
@@ -277,7 +308,7 @@ class C08(Check):
             res.violation(f"no-progress:{r['outcome']}:{case['lock']}", f"scheduler outcome {r['outcome']} after {r['steps']} steps", wit)
             return
         res.count("executions_ok")
-        for k in ("pointer_cas_success", "lease_expiries", "heartbeats", "fence_saw_other_owner"):
+        for k in ("pointer_cas_success", "lease_expiries", "heartbeats", "fence_saw_other_owner", "thief_acquired"):
             res.count(k, r["counters"].get(k, 0))
         for e in r["events"]:
             if e["outcome"] == "raised":
